@@ -114,6 +114,41 @@ void wrapped(std::vector<L> const& lv, std::vector<R> const& rv)
         }
 }
 
+// shifts through overflow_integer with the count itself an overflow_integer (wrapper shifted by wrapper):
+// counts around the widths and, for wide count types, values whose low 32 bits look negative
+template<class Tag, class L, class R>
+void wshift(Rng& rng)
+{
+    std::string tag = TagN<Tag>::name();
+    using A = overflow_integer<L, Tag>;
+    using B = overflow_integer<R, Tag>;
+    using P = decltype(std::declval<L>() << 1);
+    using NL = std::numeric_limits<L>;
+    constexpr int W = int(sizeof(P) * 8);
+    std::vector<L> lv;
+    for (I v : {I(0), I(1), I(-1), I(5), I(-5), I(NL::max()), I(NL::lowest()), I(NL::max() / 2) + 1})
+        if (v >= I(NL::lowest()) && v <= I(NL::max())) push_unique(lv, L(v));
+    for (L v : vals<L>(rng, 2 * scale_from_env(), 64)) push_unique(lv, v);
+    std::vector<R> rv;
+    for (I c : {I(0), I(1), I(7), I(8), I(W - 1), I(W), I(W + 1), I(2 * W), I(255), I(256), I(257), I(32767), I(65535), I(65536),
+                (I(1) << 31) - 1, I(1) << 31, (I(1) << 31) + 1, (I(1) << 31) + 5, (I(1) << 32) - 1, I(1) << 32, (I(1) << 32) + 1, (I(1) << 32) + 31,
+                (I(3) << 31), (I(1) << 63) - 1, I(1) << 63, (I(1) << 63) + 3, I(std::numeric_limits<R>::max())})
+        if (c >= 0 && c <= I(std::numeric_limits<R>::max())) push_unique(rv, R(c));
+    for (L l : lv)
+        for (R r : rv) {
+            A a = _impl::from_rep<A>(l);
+            B b = _impl::from_rep<B>(r);
+            WB("shl", a << b)
+#if defined(VH_WITH_SHR)
+            WB("shr", a >> b)
+#endif
+            WB("shl", a << r)
+#if defined(VH_WITH_SHR)
+            WB("shr", a >> r)
+#endif
+        }
+}
+
 template<class Tag, class L, class R>
 void pair(Rng& rng)
 {
